@@ -605,6 +605,7 @@ for _patch, _props in (('refactors/R3/patch.diff', ('C04', 'C05', 'C06', 'C07', 
                        ('refactors/R48/patch.diff', ('C09', 'C10', 'C19', 'C20')),
                        ('refactors/R50/patch.diff', ('C06', 'C10', 'C11', 'C12', 'C13', 'C15', 'C19', 'C20')),   # harmless twins of round-15 seeds
                        ('refactors/R51/patch.diff', ('C02', 'C03', 'C04', 'C05', 'C08', 'C09', 'C11', 'C12', 'C14', 'C18')),   # harmless twins of round-16 seeds
+                       ('refactors/R52/patch.diff', ('C03', 'C08', 'C09', 'C11', 'C12', 'C13', 'C15')),   # harmless variants aimed at the rules of rounds 15 / 16
                        ('refactors/R20/patch.diff', ('C12', 'C13'))):       # harmless twin of seed C12f (delay parameters read by a helper)   # harmless twin of seed C08e (memo with a complete key)    # harmless twin of seed C16c (prior spec looked up once per parameter)     # harmless twin of seed C15b (columns by list indexing, not by mask)
     for _p in _props:
         MUTANTS.append({'prop': _p, 'name': 'refactor-' + _patch.split('/')[1], 'kind': 'silent', 'patch': _patch})
